@@ -148,3 +148,7 @@ REG.contracts.append(_c19.c_post.contract)
 # None that numpy would silently turn into NaN in the nucleation rate (C09 contract on the real MulticomponentThermodynamics methods)
 from . import c09 as _c09
 REG.contracts.append(_c09.c_mt_options.contract)
+# the shape factors entering the growth rate are defined at aspect ratio exactly 1 (the needle / plate / cuboid formulas are 0/0 there and would put NaN into every
+# later history row): C15 contract on the real description classes
+from . import c15 as _c15
+REG.contracts.append(_c15.c_at_one.contract)
